@@ -1128,6 +1128,8 @@ class ObjectT(T):
     methods: List[dict] = dfield(default_factory=list)  # serialized methods: {name, ret: T, expr, alias, prop}
     fields_set: bool = False  # @with_fields_set
     inherit: int = 0  # dataclass: the first `inherit` fields are declared in an undecorated base dataclass (same flat model)
+    fs_on_base: bool = False  # with `inherit` and `fields_set`: @with_fields_set decorates the base class, the tracking is inherited
+    plain_sub: bool = False  # with `inherit` == all fields: the class itself is a plain (not re-decorated) subclass of the base dataclass
 
     @property
     def named(self):
@@ -1226,18 +1228,20 @@ class ObjectT(T):
                 lines.append(d)
             if self.class_aliaser:
                 lines.append(f"@alias(CLASS_ALIASERS[{self.class_aliaser!r}])")
-            if self.fields_set:
-                lines.append("@with_fields_set")
             dc = f"@dataclass(frozen={self.frozen})" if self.frozen else "@dataclass"
             tv = self.tvars()
+            inherit = self.inherit and not tv
+            if self.fields_set and not (inherit and self.fs_on_base):
+                lines.append("@with_fields_set")
             own_fields = self.fields
-            if self.inherit and not tv:
-                base_lines = [dc, f"class {self.name}_B:"]
+            if inherit:
+                base_lines = (["@with_fields_set"] if self.fields_set and self.fs_on_base else []) + [dc, f"class {self.name}_B:"]
                 for f in self.fields[: self.inherit]:
                     base_lines.append(self.dc_field_src(f))
                 lines = base_lines + [""] + lines
                 own_fields = self.fields[self.inherit:]
-            lines.append(dc)
+            if not (inherit and self.plain_sub and not own_fields):
+                lines.append(dc)
             lines.append((f"class {self.name}({self.name}_B):" if self.inherit else f"class {self.name}:") if not tv else f"class {self.name}(Generic[{', '.join(v.name for v in tv)}]):")
             initvars = []
             for f in own_fields:
